@@ -5,7 +5,6 @@ import (
 	"os"
 	"path/filepath"
 	"runtime"
-	"strings"
 )
 
 // AvailableDiskSize 获取磁盘剩余空间大小
@@ -19,6 +18,13 @@ func AvailableDiskSize(dirPath string) (uint64, error) {
 
 // CopyDir 拷贝 src 目录到 dest 目录, 排除指定列表中的文件
 func CopyDir(src, dest string, exclude []string) error {
+	// Walk 不会进入作为根的符号链接, 且回调得到的是规范化后的子路径
+	// 先解析符号链接并规范化源目录路径, 否则经符号链接或 "./data"、"x/../data" 等写法指定的目录无法正确拷贝
+	if resolved, err := filepath.EvalSymlinks(src); err == nil {
+		src = resolved
+	}
+	src = filepath.Clean(src)
+
 	// 目标目录不存在则创建
 	if _, err := os.Stat(dest); os.IsNotExist(err) {
 		if err := os.MkdirAll(dest, os.ModePerm); err != nil {
@@ -28,10 +34,13 @@ func CopyDir(src, dest string, exclude []string) error {
 
 	// 递归遍历源目录中的所有文件和子目录
 	return filepath.Walk(src, func(path string, info fs.FileInfo, err error) error {
-		// 从源路径中去除源目录前缀获取相对路径
-		fileName := strings.Replace(path, src, "", 1)
-		if fileName == "" {
-			// 如果相对路径为空, 即当前路径就是源目录本身, 则跳过
+		// 获取相对于源目录的相对路径
+		fileName, relErr := filepath.Rel(src, path)
+		if relErr != nil {
+			return relErr
+		}
+		if fileName == "." {
+			// 当前路径就是源目录本身, 跳过
 			return nil
 		}
 
